@@ -694,8 +694,10 @@ void RowReordering::runRegionChoice(int cellInd) {
   } else {
     for (int i = 0; i < nbRegions(); ++i) {
       order_[i].push_back(cells_[cellInd]);
-      if (allocatedWidth(i) <= regions_[i].width()) {
-        // Only if there is enough space left in the row
+      if (allocatedWidth(i) <= regions_[i].width() &&
+          placement_.isRowCompatible(cells_[cellInd], regions_[i].row)) {
+        // Only if there is enough space left in the row and the cell is allowed
+        // there
         ytopo_.updateCellPos(cells_[cellInd], placement_.rowY(regions_[i].row));
         runRegionChoice(cellInd - 1);
       }
